@@ -22,8 +22,9 @@ def c16_request(rng, keys):
         return ("MSETNX", [k, b"m1", k2, b"m2"] if k != k2 else [k, b"m1"])
     return ("DEL", [k])
 
-def history_of(obs, sent):
-    """[(conn, req-bytes, reply-bytes, inv, resp)] from the per-connection logs"""
+def history_of(obs, sent, skip=0):
+    """[(conn, req-bytes, reply-bytes, inv, resp)] from the per-connection logs; the first `skip` requests of every connection
+    (connection set-up: a refused command, AUTH) are not part of the judged history"""
     ops = []
     for ci, (res, evs) in enumerate(obs.conns):
         reqs = sent[ci]
@@ -35,7 +36,7 @@ def history_of(obs, sent):
             elif e.startswith("W@"):
                 pend_reply = L.unhx(e.split(":", 1)[1])
             elif e.startswith("T:") and pend_reply is not None:
-                if i < len(reqs) and inv is not None:
+                if skip <= i < len(reqs) and inv is not None:
                     ops.append((ci, reqs[i], pend_reply, inv, int(e[2:])))
                 i += 1; pend_reply = None; inv = None
     return ops
@@ -52,7 +53,10 @@ def run_c16(tier, seed):
         race = ok
     rng = random.Random(seed)
     cases = []
-    def add(sent, desc):
+    def add(sent, desc, pw=None):
+        if pw is not None:
+            # a server with a password: every client first sends a command (refused), then authenticates, then works
+            sent = [[("PING", []), ("AUTH", [pw])] + sq for sq in sent]
         steps = []
         order = [ci for ci, sq in enumerate(sent) for _ in sq]
         pos = [0] * len(sent)
@@ -61,7 +65,8 @@ def run_c16(tier, seed):
             steps.append((ci, "f" + L.hx(RB(nm, a))))
         for ci in range(len(sent)):
             steps.append((ci, "e"))
-        cases.append(dict(line="par=1 " + L.mkcase(steps, conns=len(sent), handler="example", trace=False), sent=sent, desc=desc))
+        cases.append(dict(line="par=1 " + L.mkcase(steps, conns=len(sent), handler="example", trace=False, pw=pw), sent=sent, desc=("[password; PING before AUTH] " if pw else "") + desc,
+                          skip=2 if pw is not None else 0))
     # systematic contention shapes named by the property
     for n in (2, 4, 8):
         add([[("INCR", [b"c"])] * 2 for _ in range(n)], "%d clients x 2 INCR on one key" % n)
@@ -70,6 +75,8 @@ def run_c16(tier, seed):
         add([[("MSETNX", [b"p", b"%d" % i, b"q", b"%d" % i]), ("MGET", [b"p", b"q"])] for i in range(n)], "%d clients MSETNX all-or-nothing then MGET" % n)
         add([[("GETSET", [b"g", b"%d" % i])] * 2 for i in range(n)], "%d clients x 2 GETSET chain" % n)
         add([[("DECRBY", [b"c", b"1"]), ("INCR", [b"c"]), ("GET", [b"c"])] for _ in range(n)], "%d clients DECRBY / INCR / GET" % n)
+        add([[("INCR", [b"c"])] * 3 for _ in range(n)], "%d clients x 3 INCR on one key" % n, pw=b"secret")
+        add([[("APPEND", [b"a", b"%d" % i])] * 2 for i in range(n)], "%d clients x 2 APPEND" % n, pw=b"secret")
     reps = 40 if tier == "quick" else 400
     cases = cases * reps
     # random short histories over 1..3 keys by 2..8 clients
@@ -110,9 +117,10 @@ def run_c16(tier, seed):
         if bad:
             chk.violation("hang-or-panic", "connection result %s during the concurrent run :: %s" % (bad[0], c["desc"]), dict(case=c["line"], desc=c["desc"]))
             continue
-        ops = history_of(obs, c["sent"])
-        if len(ops) != sum(len(sq) for sq in c["sent"]):
-            chk.violation("history-incomplete", "%d operations sent, %d observed :: %s" % (sum(len(sq) for sq in c["sent"]), len(ops), c["desc"]), dict(case=c["line"], desc=c["desc"]))
+        ops = history_of(obs, c["sent"], c.get("skip", 0))
+        nsent = sum(len(sq) - c.get("skip", 0) for sq in c["sent"])
+        if len(ops) != nsent:
+            chk.violation("history-incomplete", "%d operations sent, %d observed :: %s" % (nsent, len(ops), c["desc"]), dict(case=c["line"], desc=c["desc"]))
             continue
         c["ops"] = ops
         if any(a_[3] < b_[4] and b_[3] < a_[4] for x, a_ in enumerate(ops) for b_ in ops[x + 1:] if a_[0] != b_[0]):
